@@ -90,6 +90,17 @@ def close(a, b, tol=1e-9):
         return True
 
 
+def _freeze(x):
+    """numeric snapshot of a result: numbers and arrays are copied, containers recursed, anything else (solver variables, ...) dropped"""
+    if isinstance(x, (bool, int, float, complex, np.number)):
+        return x
+    if isinstance(x, np.ndarray):
+        return x.copy() if x.dtype != object else None
+    if isinstance(x, (list, tuple)):
+        return [_freeze(y) for y in x]
+    return None
+
+
 def frame_generic(p):
     """frame clause (see module docstring); params: module, fn, args (list of specs), kwargs (dict of specs), tol"""
     mod = importlib.import_module(p["module"])
@@ -104,12 +115,12 @@ def frame_generic(p):
     for k in kwargs:
         if not deep_equal(kwargs[k], b_kwargs[k]):
             raise Violation("%s modified its argument `%s`" % (p["fn"], k))
-    r1c = copy.deepcopy(r1) if not hasattr(r1, "value") else r1
+    r1c = _freeze(r1)
     if p.get("deterministic", True):
-        r2 = f(*args, **kwargs)
+        r2 = _freeze(f(*args, **kwargs))
         if not close(r1c, r2, p.get("tol", 1e-9)):
             raise Violation("%s: a second call with the same argument objects returned a different result" % p["fn"])
-        r3 = f(*copy.deepcopy(b_args), **copy.deepcopy(b_kwargs))
+        r3 = _freeze(f(*copy.deepcopy(b_args), **copy.deepcopy(b_kwargs)))
         if not close(r1c, r3, p.get("tol", 1e-9)):
             raise Violation("%s: the result depends on earlier calls" % p["fn"])
 
@@ -133,3 +144,38 @@ def e2_records(targets, replay=None):
     for i, x in enumerate(out):
         x["_id"] = "e2.%d" % i
     return out
+
+
+def frame_object(p):
+    """frame clause for classes: computing any value leaves the object (its attributes) and the constructor arguments unchanged, and
+    every method returns the same value as on a fresh object, whatever was called before.
+    params: module, cls, args (specs), methods: list of [name, {kwargs}] in call order, tol"""
+    mod = importlib.import_module(p["module"])
+    cls = getattr(mod, p["cls"])
+    args = [build(s) for s in p.get("args", [])]
+    b_args = copy.deepcopy(args)
+    obj = cls(*args)
+    snap = copy.deepcopy({k: v for k, v in vars(obj).items()})
+    tol = p.get("tol", 5e-4)
+    for name, kw in p["methods"]:
+        fresh = cls(*copy.deepcopy(b_args))
+        try:
+            ref = getattr(fresh, name)(**kw)
+        except Exception as e:
+            raise Undecided("reference call %s on a fresh object failed: %s" % (name, str(e)[:100]))
+        got = getattr(obj, name)(**kw)
+        for i, (a, b) in enumerate(zip(args, b_args)):
+            if not deep_equal(a, b):
+                raise Violation("%s.%s modified constructor argument #%d (the caller's array)" % (p["cls"], name, i))
+        now = {k: v for k, v in vars(obj).items()}
+        for k in snap:
+            if k not in now or not deep_equal(now[k], snap[k]):
+                raise Violation("%s.%s modified the object's attribute `%s`" % (p["cls"], name, k))
+        if isinstance(got, (int, float, np.floating)) and isinstance(ref, (int, float, np.floating)):
+            if not (np.isfinite(got) and np.isfinite(ref)):
+                raise Undecided("non-finite value from %s" % name)
+            if abs(float(got) - float(ref)) > tol and not p.get("randomized", {}).get(name):
+                raise Violation("%s.%s returned %.6f after %s, but %.6f on a fresh object" % (p["cls"], name, float(got), [m for m, _ in p["methods"]], float(ref)))
+
+
+frame_object.function = "frame"
